@@ -3,6 +3,8 @@ import BpModel.Model.PyRt
 import BpModel.Model.CRtTree
 import BpModel.Model.OpMode
 import BpModel.Model.Wire
+import BpModel.Model.Expr
+import BpModel.Model.Lit
 /-!
 # bpdrv — line-protocol driver for the executable model
 
@@ -230,6 +232,40 @@ def handle (op : String) (req : Json) : Except String Json := do
     match Wire.decodeWith OpMode.decLeaf t bs with
     | .ok v => pure (okJson (valToJson t v))
     | .error e => pure (excJson e)
+  | "front.eval" =>
+    let text ← req.getObjValAs? String "text"
+    let envj ← req.getObjValAs? (Array Json) "env"
+    let env ← envj.toList.mapM fun kv => do
+      let a ← kv.getArr?
+      if h : a.size = 2 then
+        let k ← (a[0]'(by omega)).getStr?
+        let v ← (a[1]'(by omega)).getInt?
+        pure (k, v)
+      else .error "bad env pair"
+    match Expr.evalText (fun n => (env.find? (·.1 == n)).map (·.2)) text with
+    | .ok v => pure (okJson (v : Int))
+    | .error e => pure (Json.mkObj [("exc", e)])
+  | "emit.intlit" =>
+    let v ← req.getObjValAs? Int "v"
+    pure (okJson (String.ofList (Lit.intLit v)))
+  | "emit.strlit" =>
+    let v ← req.getObjValAs? String "s"
+    pure (okJson (String.ofList (Lit.strLit v.toList)))
+  | "emit.boollit" =>
+    let l ← req.getObjValAs? String "lang"
+    let b ← req.getObjValAs? Bool "b"
+    let lang := if l == "py" then Lit.Lang.py else if l == "go" then Lit.Lang.go else Lit.Lang.c
+    pure (okJson (Lit.boolLit lang b))
+  | "lang.denotestr" =>
+    let t ← req.getObjValAs? String "text"
+    match Lit.denoteStr t.toList with
+    | some v => pure (okJson (String.ofList v))
+    | none => pure (Json.mkObj [("exc", "not-a-literal")])
+  | "lang.denoteint" =>
+    let t ← req.getObjValAs? String "text"
+    match Lit.denoteInt t.toList with
+    | some v => pure (okJson (v : Int))
+    | none => pure (Json.mkObj [("exc", "not-a-literal")])
   | _ => .error s!"unknown op {op}"
 
 def handleLine (line : String) : Json :=
